@@ -60,11 +60,42 @@ def run(prop, tier, replay):
     ck.add_part("self-check deviation lorom_sram_70", kind="tlc", violated=r2.violated)
 
     # 2. record the real code
+    extra_bads = []
     vh = build_harness()
     d = scratch_dir("vmm")
     try:
         out, _ = run_vh(vh, ["mappages", d], env_extra={"VERIF_TIER": tier})
         summ = json.loads(out)
+        if prop == "C11":
+            # the same probe on a System with a front end's history: header-bearing image loaded before CreateEmulator,
+            # temporary overlay, by-value copy, re-creation (fresh process)
+            d3 = scratch_dir("vmm3")
+            try:
+                out3, _ = run_vh(vh, ["mappages", d3, "sysheader"], env_extra={"VERIF_TIER": "quick"})
+                summ3 = json.loads(out3)
+                r5 = run_tlc("MemMapTrace", "MemMapTrace.cfg", workers=8, files={"pages.ndjson": os.path.join(d3, "pages.ndjson")})
+                if r5.violated:
+                    raise Infra("MemMapTrace (re-created System) stopped unexpectedly: " + r5.violated)
+                ck.add_tlc("MemMapTrace (System re-created from a copied, header-bearing, overlaid System)", r5, "10 tables x 2048 pages")
+                extra_bads = [b for b in r5.json_prints("BAD")]
+                summ["issues"] = (summ.get("issues") or []) + [i for i in (summ3.get("issues") or []) if ISSUE_PROP.get(i["kind"]) == "C11"]
+            finally:
+                shutil.rmtree(d3, ignore_errors=True)
+        if prop in ("C04", "C05"):
+            # a second, fresh process that touches the functions in the opposite order (pak->bus first, mappers reversed):
+            # its tables are judged by TLC as well and its issues are added
+            d2 = scratch_dir("vmm2")
+            try:
+                out2, _ = run_vh(vh, ["mappages", d2, "nosystem"], env_extra={"VERIF_TIER": tier, "VERIF_ORDER": "pakfirst"})
+                summ2 = json.loads(out2)
+                r4 = run_tlc("MemMapTrace", "MemMapTrace.cfg", workers=8, files={"pages.ndjson": os.path.join(d2, "pages.ndjson")})
+                if r4.violated:
+                    raise Infra("MemMapTrace (pak-first process) stopped unexpectedly: " + r4.violated)
+                ck.add_tlc("MemMapTrace (real page tables, pak->bus-first process)", r4, "8 tables x 2048 pages")
+                extra_bads = [b for b in r4.json_prints("BAD")]
+                summ["issues"] = (summ.get("issues") or []) + (summ2.get("issues") or [])
+            finally:
+                shutil.rmtree(d2, ignore_errors=True)
         # 3. TLC judges the recorded tables
         r3 = run_tlc("MemMapTrace", "MemMapTrace.cfg", workers=8, files={"pages.ndjson": os.path.join(d, "pages.ndjson")})
         if r3.violated:
@@ -92,7 +123,7 @@ def run(prop, tier, replay):
             ck.sample(e)
         ck.add_part("mirror-coherence sequences (SystemTrace.tla)", kind="tlc-trace", events=nev_s, groups=nchunks * per)
 
-    bads = r3.json_prints("BAD")
+    bads = r3.json_prints("BAD") + extra_bads
     mine = [b for b in bads if b["prop"] == prop]
     for b in mine:
         b["table"] = TABLE_NAMES[b["t"]]
